@@ -144,9 +144,11 @@ Definition explain_conc (c : conc_case) :=
 (** * grp "rlf": RateLimiter filter histories (model: RL.fstep) *)
 
 Inductive rl_in :=
-| RInit (spec : nat) (dt : Z) (refs : list Z)
-| RInherit (spec from : nat) (dt : Z) (panicked : bool) (refs fromrefs : list Z)
+| RInit (spec : nat) (dt : Z) (refs : list Z) (pols twin : list (list Z))
+| RInherit (spec from : nat) (dt : Z) (panicked : bool) (refs fromrefs : list Z) (pols twin : list (list Z))
 | RHandle (g : nat) (dt : Z) (matches : list bool) (code : Z).   (* 0 pass | 1 limited+429 | 2 panic | 3 other *)
+(** [pols]: (limitForPeriod, timeout, period) that the limiter object of each rule of the new
+    generation enforces; [twin]: the same for a never-inherited filter built from the same spec *)
 
 Record rlf_case := { rc_specs : list fspec; rc_ops : list rl_in; rc_bad : bool }.
 
@@ -156,21 +158,34 @@ Definition spec_at (specs : list fspec) (i : nat) : fspec := nth i specs empty_s
 Definition refs_of (w : fworld) (g : nat) : list Z :=
   match nth_error (w_gens w) g with Some x => map ref_code (g_lims x) | None => [] end.
 
+Definition pol_row (p : policy) : list Z := [pL p; pT p; pP p].
+Definition pols_of (h : heap) (refs : list (option Z)) : list (list Z) :=
+  map (fun r => match r with
+                | Some k => match hget h k with Some x => pol_row (lpol x) | None => [-1; -1; -1] end
+                | None => [-1; -1; -1]
+                end) refs.
+(** what a filter created by Init alone from [s] enforces per rule *)
+Definition fresh_pols (s : fspec) : list (list Z) :=
+  map (fun u => pol_row (lib_policy (bound_policy s u))) (fs_urls s).
+
 (** the model's own version of the history: same inputs (and oracle rows), its outputs *)
 Fixpoint rl_replay (q : RL.quirks) (specs : list fspec) (w : fworld) (now : Z) (ops : list rl_in) : list rl_in :=
   match ops with
   | [] => []
-  | RInit si dt _ :: t =>
+  | RInit si dt _ _ _ :: t =>
       let now' := now + dt in
       let '(w', o) := fstep q w (FInit (spec_at specs si) now') in
-      RInit si dt (match o with OGen r => map ref_code r | _ => [-9] end) :: rl_replay q specs w' now' t
-  | RInherit si from dt _ _ _ :: t =>
+      (match o with
+       | OGen r => RInit si dt (map ref_code r) (pols_of (w_heap w') r) (fresh_pols (spec_at specs si))
+       | _ => RInit si dt [-9] [] []
+       end) :: rl_replay q specs w' now' t
+  | RInherit si from dt _ _ _ _ _ :: t =>
       let now' := now + dt in
       let '(w', o) := fstep q w (FInherit (spec_at specs si) from now') in
       (match o with
-       | OGen r => RInherit si from dt false (map ref_code r) (refs_of w' from)
-       | OInheritPanic => RInherit si from dt true [] (refs_of w' from)
-       | _ => RInherit si from dt true [-9] [-9]
+       | OGen r => RInherit si from dt false (map ref_code r) (refs_of w' from) (pols_of (w_heap w') r) (fresh_pols (spec_at specs si))
+       | OInheritPanic => RInherit si from dt true [] (refs_of w' from) [] (fresh_pols (spec_at specs si))
+       | _ => RInherit si from dt true [-9] [-9] [] []
        end) :: rl_replay q specs w' now' t
   | RHandle g dt m _ :: t =>
       let now' := now + dt in
@@ -197,19 +212,22 @@ Fixpoint canon_ids (m : list (Z * Z)) (ids : list Z) : list (Z * Z) * list Z :=
 Fixpoint canon_ops (m : list (Z * Z)) (ops : list rl_in) : list rl_in :=
   match ops with
   | [] => []
-  | RInit s d refs :: t => let '(m1, r) := canon_ids m refs in RInit s d r :: canon_ops m1 t
-  | RInherit s f d p refs fr :: t =>
+  | RInit s d refs ps tw :: t => let '(m1, r) := canon_ids m refs in RInit s d r ps tw :: canon_ops m1 t
+  | RInherit s f d p refs fr ps tw :: t =>
       let '(m1, r) := canon_ids m refs in
       let '(m2, r2) := canon_ids m1 fr in
-      RInherit s f d p r r2 :: canon_ops m2 t
+      RInherit s f d p r r2 ps tw :: canon_ops m2 t
   | o :: t => o :: canon_ops m t
   end.
 
 Definition rl_in_eqb (a b : rl_in) : bool :=
   match a, b with
-  | RInit s1 d1 r1, RInit s2 d2 r2 => Nat.eqb s1 s2 && (d1 =? d2) && list_eqb Z.eqb r1 r2
-  | RInherit s1 f1 d1 p1 r1 o1, RInherit s2 f2 d2 p2 r2 o2 =>
-      Nat.eqb s1 s2 && Nat.eqb f1 f2 && (d1 =? d2) && Bool.eqb p1 p2 && list_eqb Z.eqb r1 r2 && list_eqb Z.eqb o1 o2
+  | RInit s1 d1 r1 a1 b1, RInit s2 d2 r2 a2 b2 =>
+      Nat.eqb s1 s2 && (d1 =? d2) && list_eqb Z.eqb r1 r2 &&
+      list_eqb (list_eqb Z.eqb) a1 a2 && list_eqb (list_eqb Z.eqb) b1 b2
+  | RInherit s1 f1 d1 p1 r1 o1 a1 b1, RInherit s2 f2 d2 p2 r2 o2 a2 b2 =>
+      Nat.eqb s1 s2 && Nat.eqb f1 f2 && (d1 =? d2) && Bool.eqb p1 p2 && list_eqb Z.eqb r1 r2 && list_eqb Z.eqb o1 o2 &&
+      list_eqb (list_eqb Z.eqb) a1 a2 && list_eqb (list_eqb Z.eqb) b1 b2
   | RHandle g1 d1 m1 c1, RHandle g2 d2 m2 c2 =>
       Nat.eqb g1 g2 && (d1 =? d2) && list_eqb Bool.eqb m1 m2 && (c1 =? c2)
   | _, _ => false
@@ -220,25 +238,28 @@ Definition rl_in_eqb (a b : rl_in) : bool :=
 Fixpoint rl_prop_steps (known : list (list Z)) (ops : list rl_in) : list bool :=
   match ops with
   | [] => []
-  | RInit _ _ refs :: t => negb (existsb (Z.eqb (-1)) refs) :: rl_prop_steps (known ++ [refs]) t
-  | RInherit _ from _ pk refs fromrefs :: t =>
-      (* Inherit does not panic, the new generation has a limiter for every rule, and the generation
-         inherited from still holds every limiter it had *)
-      (negb pk && negb (existsb (Z.eqb (-1)) refs) && list_eqb Z.eqb fromrefs (nth from known [-8]))
+  | RInit _ _ refs ps tw :: t =>
+      (negb (existsb (Z.eqb (-1)) refs) && list_eqb (list_eqb Z.eqb) ps tw) :: rl_prop_steps (known ++ [refs]) t
+  | RInherit _ from _ pk refs fromrefs ps tw :: t =>
+      (* Inherit does not panic, the new generation has a limiter for every rule, the generation
+         inherited from still holds every limiter it had, and the new generation enforces exactly the
+         limits a freshly created filter with the same spec enforces *)
+      (negb pk && negb (existsb (Z.eqb (-1)) refs) && list_eqb Z.eqb fromrefs (nth from known [-8]) &&
+       list_eqb (list_eqb Z.eqb) ps tw)
         :: rl_prop_steps (if pk then known else known ++ [refs]) t
   | RHandle _ _ m code :: t =>
       (((code =? 0) || (code =? 1)) && (if existsb (fun b => b) m then true else code =? 0))
         :: rl_prop_steps known t
   end.
 
-Definition is_rinherit (o : rl_in) : bool := match o with RInherit _ _ _ _ _ _ => true | _ => false end.
+Definition is_rinherit (o : rl_in) : bool := match o with RInherit _ _ _ _ _ _ _ _ => true | _ => false end.
 Definition is_limited (o : rl_in) : bool := match o with RHandle _ _ _ c => c =? 1 | _ => false end.
 
 (** some request was handled by a generation that had already been inherited from *)
 Fixpoint old_handled (inherited : list nat) (ops : list rl_in) : bool :=
   match ops with
   | [] => false
-  | RInherit _ from _ _ _ _ :: t => old_handled (from :: inherited) t
+  | RInherit _ from _ _ _ _ _ _ :: t => old_handled (from :: inherited) t
   | RHandle g _ m _ :: t => (existsb (Nat.eqb g) inherited && existsb (fun b => b) m) || old_handled inherited t
   | _ :: t => old_handled inherited t
   end.
@@ -693,3 +714,67 @@ Definition check_tcreal (pinned : rquirks) (c : tcreal_case) : result :=
 Definition explain_tcreal (c : tcreal_case) :=
   map (fun '(st, r) => (tr_err r, tr_ret r, tr_evs r))
       (tc_run tc_state0 (map (fun '(n, sp) => TApply CP "n1" n sp) (trc_ops c))).
+
+(** * grp "reg": ObjectRegistry rounds with undecodable entries *)
+Record reg_round := { rr_snap : list (string * option string);
+                      rr_panic : bool;
+                      rr_create : list (string * string); rr_update : list (string * string); rr_delete : list string;
+                      rr_tcreate : list (string * string); rr_tupdate : list (string * string); rr_tdelete : list string }.
+Record reg_case := { rg_rounds : list reg_round; rg_bad : bool }.
+
+Definition sv_eqb (a b : string * string) : bool := String.eqb (fst a) (fst b) && String.eqb (snd a) (snd b).
+
+Fixpoint dedup (l : list string) : list string :=
+  match l with
+  | [] => []
+  | x :: t => if existsb (String.eqb x) t then dedup t else x :: dedup t
+  end.
+
+Fixpoint reg_corr (ents : list (string * string)) (rs : list reg_round) : bool :=
+  match rs with
+  | [] => true
+  | r :: t =>
+      let names := dedup (map fst ents ++ map fst (rr_snap r)) in
+      let evs := map (fun n => (n, reg_event ents (rr_snap r) n)) names in
+      let cr := flat_map (fun '(n, e) => match e with RCreate v => [(n, v)] | _ => [] end) evs in
+      let up := flat_map (fun '(n, e) => match e with RUpdate v => [(n, v)] | _ => [] end) evs in
+      let de := flat_map (fun '(n, e) => match e with RDelete => [n] | _ => [] end) evs in
+      let ents' := flat_map (fun n => match reg_after ents (rr_snap r) n with Some v => [(n, v)] | None => [] end) names in
+      negb (rr_panic r) && same_set sv_eqb cr (rr_create r) && same_set sv_eqb up (rr_update r) &&
+      same_set String.eqb de (rr_delete r) && reg_corr ents' t
+  end.
+
+(** on the observations alone: for every name that has never been undecodable so far, the registry
+    delivers exactly what the twin (fed the rounds without the undecodable entries) delivers *)
+Fixpoint reg_prop (tainted : list string) (rs : list reg_round) : bool :=
+  match rs with
+  | [] => true
+  | r :: t =>
+      let tainted' := flat_map (fun '(n, v) => match v with None => [n] | Some _ => [] end) (rr_snap r) ++ tainted in
+      let ok1 (x : string * string) := negb (existsb (String.eqb (fst x)) tainted') in
+      let ok2 (x : string) := negb (existsb (String.eqb x) tainted') in
+      negb (rr_panic r) &&
+      same_set sv_eqb (filter ok1 (rr_create r)) (filter ok1 (rr_tcreate r)) &&
+      same_set sv_eqb (filter ok1 (rr_update r)) (filter ok1 (rr_tupdate r)) &&
+      same_set String.eqb (filter ok2 (rr_delete r)) (filter ok2 (rr_tdelete r)) &&
+      reg_prop tainted' t
+  end.
+
+Definition round_has_bad (r : reg_round) : bool := existsb (fun '(_, v) => match v with None => true | _ => false end) (rr_snap r).
+Definition round_has_ev (r : reg_round) : bool :=
+  match rr_tcreate r, rr_tupdate r, rr_tdelete r with [], [], [] => false | _, _, _ => true end.
+
+Definition check_reg (pinned : rquirks) (c : reg_case) : result :=
+  if rg_bad c then (true, true, 0%N, 0%N) else
+  (reg_corr [] (rg_rounds c), reg_prop [] (rg_rounds c),
+   (1 + bN (existsb (fun r => round_has_bad r && round_has_ev r) (rg_rounds c)) 1)%N, 0%N).
+
+Fixpoint explain_reg_from (ents : list (string * string)) (rs : list reg_round) :=
+  match rs with
+  | [] => []
+  | r :: t =>
+      let names := dedup (map fst ents ++ map fst (rr_snap r)) in
+      let ents' := flat_map (fun n => match reg_after ents (rr_snap r) n with Some v => [(n, v)] | None => [] end) names in
+      map (fun n => (n, reg_event ents (rr_snap r) n)) names :: explain_reg_from ents' t
+  end.
+Definition explain_reg (c : reg_case) := explain_reg_from [] (rg_rounds c).
